@@ -203,7 +203,7 @@ fn quick_tuples() -> Vec<Tuple> {
         Tuple { l: le(2, 2, true, -10, 14), version: 4 },
         Tuple { l: le(1, 4, true, 0, 1), version: 5 },
         Tuple { l: le(4, 4, false, -5, 127), version: 5 },
-        Tuple { l: le(1, 1, true, -128, 200), version: 5 },
+        Tuple { l: le(1, 1, true, -128, 255), version: 5 },
         Tuple { l: le(1, 1, true, -1, 128), version: 4 },
     ]
 }
@@ -263,10 +263,10 @@ fn sub_grid(tier: Tier, subs: &mut Vec<Sub>) {
     }
     let nu = units.len() as u64;
     let nt = tuples.len();
-    subs.push(Sub::new(
+    push_sub(subs, Sub::new(
         "advance-grid",
         nu * 601,
-        &format!("the full grid line advance -300..=300 x operation advance 0..=600 (361201 pairs; one case = one line advance x all 601 operation advances, each pair its own sequence begin_sequence(Some); row; row; end_sequence) for {} (LineEncoding, version) tuples x starting op_index {} = {} units: {}; address size 8, format/byte order rotating", nt, if tier == Tier::Quick { "{0, max_ops-1}" } else { "0..max_ops" }, nu, if tier == Tier::Quick { "line_base/line_range/min_inst/max_ops/version = (-5,14,1,1,v4) (-3,12,1,1,v2) (-1,4,4,1,v3) (-10,14,2,2,v4) (0,1,1,4,v5) (-5,127,4,4,v5) and the documented-valid (-128,200) (-1,128)" } else { "line_base {-128,-10,-5,-3,-1,0} x line_range {1,2,10,14,127,128,200,255} (documented-valid pairs: line_base <= 0 < line_base+line_range) x min_inst {1,2,4} x max_ops {1,2,4} x versions 2-5 (max_ops > 1: versions 4,5)" }),
+        &format!("the full grid line advance -300..=300 x operation advance 0..=600 (361201 pairs; one case = one line advance x all 601 operation advances, each pair its own sequence begin_sequence(Some); row; row; end_sequence) for {} (LineEncoding, version) tuples x starting op_index {} = {} units: {}; address size 8, format/byte order rotating", nt, if tier == Tier::Quick { "{0, max_ops-1}" } else { "0..max_ops" }, nu, if tier == Tier::Quick { "line_base/line_range/min_inst/max_ops/version = (-5,14,1,1,v4) (-3,12,1,1,v2) (-1,4,4,1,v3) (-10,14,2,2,v4) (0,1,1,4,v5) (-5,127,4,4,v5) (-128,255,1,1,v5) (-1,128,1,1,v4)" } else { "line_base {-128,-10,-5,-3,-1,0} x line_range {1,2,10,14,127,128,200,255} (documented-valid pairs: line_base <= 0 < line_base+line_range) x min_inst {1,2,4} x max_ops {1,2,4} x versions 2-5 (max_ops > 1: versions 4,5)" }),
         move |ctx, i| {
             let la = (i % 601) as i64 - 300;
             let (k, o0) = units[(i / 601) as usize];
@@ -631,7 +631,7 @@ fn sub_rowfields(tier: Tier, subs: &mut Vec<Sub>) {
     let ntv = tv.len() as u64;
     const CH: u64 = 16;
     let nchunk = nseq.div_ceil(CH);
-    subs.push(Sub::new(
+    push_sub(subs, Sub::new(
         "row-fields",
         ntv * N_STRUCT * nchunk,
         &format!("every sequence of 0..={} rows over 18 row deltas (same, file, column+3, column=0, negate is_stmt, basic_block, prologue_end, epilogue_begin, isa+1, discriminator, op_index+1, line+1, line-1, line+1000, address+1 instruction, address+0x1000 instructions, all fields at once, line=0) x 9 sequence structures (begin_sequence(Some)/(None), set_address without begin, implicit begin, two sequences with reset, mid-sequence set_address to the same / a higher address, bare end_sequence first, end_sequence with extra advance) x 4 LineEncodings (default; min_inst 4 max_ops 4 line_base -3 line_range 12; min_inst 2 line_base -1 line_range 4; max_ops 2 line_base 0 line_range 1) x every version the encoding is valid for ({} tuples); format/address size {{4,8}}/byte order rotate with the index", maxlen, ntv),
@@ -654,7 +654,7 @@ fn sub_encodings(_tier: Tier, subs: &mut Vec<Sub>) {
     let nseq = seq_count(N_DELTA, 0, 2);
     let tvs: Vec<(LineEncoding, u16)> = field_tuples().into_iter().flat_map(|l| versions_for(&l).into_iter().map(move |v| (l, v))).collect();
     let ntv = tvs.len() as u64;
-    subs.push(Sub::new(
+    push_sub(subs, Sub::new(
         "encodings",
         ntv * 2 * 4 * 2 * N_STRUCT,
         "every (LineEncoding, version) tuple of row-fields x DWARF32/64 x address size 1/2/4/8 x byte order x 9 sequence structures, each with every row sequence of length 0..=2 over the 18 deltas, sequence base address = 2^(8*address_size) - 0x10000 (0xa000 for 2-byte, 0x40 for 1-byte addresses): full product of the dimensions that meet in set_address / header emission",
@@ -702,7 +702,7 @@ fn sub_boundary(_tier: Tier, subs: &mut Vec<Sub>) {
     let tuples = field_tuples();
     let no = offs.len() as u64;
     let nl = lines.len() as u64;
-    subs.push(Sub::new(
+    push_sub(subs, Sub::new(
         "boundary-values",
         tuples.len() as u64 * 2 * no * no * nl,
         "two-row sequences begin_sequence(None); row(offset a, line 1); row(offset b >= a, line L, column/isa/discriminator 2^64-1 on odd indices); end_sequence(b) for a, b in {0, 4, 2^32, 2^56, 2^60, 2^61, 2^62, 2^63, 0xffffffff81000000, 2^64-8} and L in {1, 0, 2^31-1, 2^31, 2^32-1, 2^32} x 4 LineEncodings x versions {4,5}; address size 8; every address stays below 2^64-2",
@@ -810,7 +810,7 @@ fn sub_files(tier: Tier, subs: &mut Vec<Sub>) {
     let maxops = tier.pick(2u32, 3u32);
     let nseq = seq_count(N_TOP, 0, maxops);
     // dims: version 4, fmt 2, form 3, flags 16, seq
-    subs.push(Sub::new(
+    push_sub(subs, Sub::new(
         "file-tables",
         nseq * 4 * 2 * 3 * 16,
         &format!("every sequence of 0..={} table operations over {{add_directory of 3 names (one equal to the working directory), add_file of 2 names x (default directory | most recently added directory) x info (None | timestamp/size/md5/source | extreme values, no source)}} (duplicates re-use ids, later info overrides) x versions 2-5 x DWARF32/64 x string form (inline, .debug_line_str, .debug_str) x all 16 combinations of file_has_timestamp/size/md5/source; one row per file id; tables, optional fields, string sections and row->file resolution compared", maxops),
@@ -1052,7 +1052,7 @@ fn sub_files(tier: Tier, subs: &mut Vec<Sub>) {
 
 /// The writer refuses what it cannot represent with an error.
 fn sub_refusals(_tier: Tier, subs: &mut Vec<Sub>) {
-    subs.push(Sub::new("refusals", 4 * 3, "max_ops 2 under versions 2,3 (error NeedVersion(4)), mixed string forms in one version 5 table (error LineStringFormMismatch), unit encoding with another address size / older version than a version 5 program (error IncompatibleLineProgramEncoding): an error, never a silently different program", move |ctx, i| {
+    push_sub(subs, Sub::new("refusals", 4 * 3, "max_ops 2 under versions 2,3 (error NeedVersion(4)), mixed string forms in one version 5 table (error LineStringFormMismatch), unit encoding with another address size / older version than a version 5 program (error IncompatibleLineProgramEncoding): an error, never a silently different program", move |ctx, i| {
         ctx.eval(1);
         let kind = i / 4;
         let version = [2u16, 3, 4, 5][(i % 4) as usize];
@@ -1100,6 +1100,12 @@ fn sub_refusals(_tier: Tier, subs: &mut Vec<Sub>) {
         }
         ctx.nontriv(1);
     }));
+}
+
+/// Generous no-progress timeout: one case is at most a few hundred ms of CPU, but
+/// the machine may be heavily oversubscribed by parallel sessions.
+fn push_sub(subs: &mut Vec<Sub>, s: Sub) {
+    subs.push(s.timeout(1800));
 }
 
 pub fn def(tier: Tier) -> CheckDef {
